@@ -24,7 +24,7 @@
 // (chunks / next); the contract of Range::range (external_body: its body uses chunks_mut/zip/clone_from_slice, outside
 // vstd; checked bounded by Kani harnesses range_window_*); one declared rewrite in from_sparse (map-closure loop header).
 // Bounded Kani (kani/range.rs, never counted as proved): range(), rows()/cells()/used_cells() + size_hint/next_back,
-// Index/IndexMut, a counterexample twin for set_value.
+// Index/IndexMut, a bounded twin of the set_value clauses, set_value / range on the empty range.
 #![feature(allocator_api)]
 #![allow(unused_imports, dead_code, unused_variables, unused_mut, unused_assignments)]
 use vstd::prelude::*;
@@ -278,26 +278,31 @@ proof fn lemma_idx(i: int, j: int, h: int, w: int)
         // documented: "Panics: If absolute_position > Cell start" (sic) -- the position must be at or beyond the start corner
         old(self).lo().0 <= absolute_position.0, old(self).lo().1 <= absolute_position.1,
         // ADDED (not documented): the grown rectangle must have spans representable in u32 (fewer than 2^32 rows / columns)
-        absolute_position.0 - old(self).lo().0 < u32::MAX, absolute_position.1 - old(self).lo().1 < u32::MAX,
+        old(self).nonempty() ==> absolute_position.0 - old(self).lo().0 < u32::MAX && absolute_position.1 - old(self).lo().1 < u32::MAX,
     ensures
         //# C05.set_wf
-        old(self).nonempty() ==> final(self).wf(),
+        final(self).wf(),
         //# C05.set_bounds
-        old(self).nonempty() ==> final(self).nonempty() && final(self).lo() == old(self).lo()
-            && final(self).hi().0 == (if absolute_position.0 > old(self).hi().0 { absolute_position.0 } else { old(self).hi().0 })
-            && final(self).hi().1 == (if absolute_position.1 > old(self).hi().1 { absolute_position.1 } else { old(self).hi().1 }),
+        // bounding box of the old rectangle and the position (an empty old rectangle contributes nothing)
+        final(self).nonempty()
+            && final(self).lo() == (if old(self).nonempty() { old(self).lo() } else { absolute_position })
+            && final(self).hi().0 == (if old(self).nonempty() && old(self).hi().0 >= absolute_position.0 { old(self).hi().0 } else { absolute_position.0 })
+            && final(self).hi().1 == (if old(self).nonempty() && old(self).hi().1 >= absolute_position.1 { old(self).hi().1 } else { absolute_position.1 }),
         //# C05.set_written
-        old(self).nonempty() ==> final(self).at(absolute_position.0 as int, absolute_position.1 as int) == value,
+        final(self).at(absolute_position.0 as int, absolute_position.1 as int) == value,
         //# C05.set_frame
-        old(self).nonempty() && lawful::<T>() ==> forall|i: int, j: int| final(self).has(i, j) && !(i == absolute_position.0 && j == absolute_position.1)
+        lawful::<T>() ==> forall|i: int, j: int| final(self).has(i, j) && !(i == absolute_position.0 && j == absolute_position.1)
             ==> final(self).at(i, j) == (if old(self).has(i, j) { old(self).at(i, j) } else { dflt::<T>() }),
         //# C05.set_on_empty
-        !old(self).nonempty() ==> final(self).wf() && final(self).nonempty()
-            && final(self).lo() == absolute_position && final(self).hi() == absolute_position
-            && final(self).at(absolute_position.0 as int, absolute_position.1 as int) == value,
-//@@ body
-        let ghost o = *old(self);
-        let ghost ne = old(self).nonempty();
+        !old(self).nonempty() ==> final(self).lo() == absolute_position && final(self).hi() == absolute_position,
+//@@ before /match \(/
+        // `o`: the rectangle the match works on (the old one, or the single default cell at the position if the old one was empty)
+        let ghost o = *self;
+        proof {
+            assert(o.wf() && o.nonempty());
+            assert(old(self).nonempty() ==> o == *old(self));
+            assert(!old(self).nonempty() ==> o.lo() == absolute_position && o.hi() == absolute_position);
+        }
         let ghost p0 = absolute_position.0 as int;
         let ghost p1 = absolute_position.1 as int;
         let ghost s0 = o.start.0 as int;
@@ -312,13 +317,11 @@ proof fn lemma_idx(i: int, j: int, h: int, w: int)
             lemma_mul_u32(h0, w0); lemma_mul_u32(h1, w1); lemma_mul_u32(h1, w0); lemma_mul_u32(h0, w1);
         }
 //@@ before /let len = \(absolute_position/
-                proof { lemma_mul_u32(p0 - self.end.0 + 1, self.sw()); lemma_mul_u32(p0 - self.end.0, self.sw()); }
+                proof { lemma_mul_u32(p0 - self.end.0, self.sw()); }
 //@@ after /self\.end\.0 = absolute_position\.0;/
-                proof { if ne {
+                proof { {
                     let d = p0 - o.end.0;
-                    // (hints do not presuppose how many rows the code appends: d * w0 is what the rectangle needs)
                     assert((h0 + d) * w0 == h0 * w0 + d * w0) by (nonlinear_arith);
-                    assert((d + 1) * w0 == d * w0 + w0) by (nonlinear_arith);
                     assert(h1 == h0 + d);
                     assert forall|i: int, j: int| 0 <= i < h1 && 0 <= j < w1 implies
                         0 <= #[trigger] ix(i, j, w1) < h1 * w1
@@ -331,7 +334,7 @@ proof fn lemma_idx(i: int, j: int, h: int, w: int)
                     }
                 } }
 //@@ before /let mut data = /
-                proof { if ne {
+                proof { {
                     assert(height == h1 && width == w1 && old_width == w0);
                 }
                 lemma_mul_u32(width as int, height as int);
@@ -339,25 +342,24 @@ proof fn lemma_idx(i: int, j: int, h: int, w: int)
 //@@ before /for sce in /
                 proof {
                     assert(self.inner@.skip(0) =~= self.inner@);
-                    if ne { lemma_mul_ge1(h0, w0); }
+                    lemma_mul_ge1(h0, w0);
                 }
 //@@ r6 0
 //@@ loop 0
                     invariant
-                        *self == o, ne == o.nonempty(), o.wf(), h0 == o.h(), w0 == o.w(), old_width == o.sw(),
-                        ne ==> width == w1 && w1 > w0, w1 <= 0xffff_ffff, h0 <= 0xffff_ffff,
+                        *self == o, o.nonempty(), o.wf(), h0 == o.h(), w0 == o.w(), old_width == w0,
+                        width == w1, w1 > w0, w1 <= 0xffff_ffff, h0 <= 0xffff_ffff,
                         empty@.len() == width - old_width,
                         lawful::<T>() ==> forall|x: int| 0 <= x < empty@.len() ==> empty@[x] == dflt::<T>(),
-                        !ne ==> chunks_rem(__it0).len() == 0,
-                        ne ==> chunks_size(__it0) == w0 && 0 <= k <= h0 && k * w0 <= h0 * w0 && chunks_rem(__it0) == o.inner@.skip(k * w0)
+                        chunks_size(__it0) == w0 && 0 <= k <= h0 && k * w0 <= h0 * w0 && chunks_rem(__it0) == o.inner@.skip(k * w0)
                             && data@.len() == k * w1 && (k < h0 ==> chunks_rem(__it0).len() > 0),
-                        ne && lawful::<T>() ==> forall|i: int, j: int| 0 <= i < k && 0 <= j < w1 ==>
+                        lawful::<T>() ==> forall|i: int, j: int| 0 <= i < k && 0 <= j < w1 ==>
                             data@[#[trigger] ix(i, j, w1)] == (if j < w0 { o.inner@[ix(i, j, w0)] } else { dflt::<T>() }),
-                    ensures ne ==> k == h0,
+                    ensures k == h0,
                     decreases chunks_rem(__it0).len(),
 //@@ before /data\.extend_from_slice\(sce\);/
                     let ghost d0 = data@;
-                    proof { if ne {
+                    proof { {
                         let rem = o.inner@.skip(k * w0);
                         assert(rem.len() == h0 * w0 - k * w0);
                         assert(h0 * w0 - k * w0 == (h0 - k) * w0) by (nonlinear_arith);
@@ -372,7 +374,7 @@ proof fn lemma_idx(i: int, j: int, h: int, w: int)
                         lemma_mul_u32(k + 1, w1);
                     } }
 //@@ after /data\.extend_from_slice\(&empty\);/
-                    proof { if ne {
+                    proof { {
                         assert(data@.len() == (k + 1) * w1);
                         if lawful::<T>() {
                             assert forall|i: int, j: int| 0 <= i < k + 1 && 0 <= j < w1 implies
@@ -400,14 +402,14 @@ proof fn lemma_idx(i: int, j: int, h: int, w: int)
                     } }
 //@@ before /data\.extend_from_slice\(&vec!\[T::default\(\); width \* /
                 let ghost d1 = data@;
-                proof { if ne {
+                proof { {
                     // the chunk cursor is exhausted: all h0 rows were copied
                     assert(k == h0);
                     lemma_mul_u32(w1, h1 - h0);
                     assert(h0 * w1 + w1 * (h1 - h0) == h1 * w1) by (nonlinear_arith);
                 } }
 //@@ before /self\.inner = data;/
-                proof { if ne && lawful::<T>() {
+                proof { if lawful::<T>() {
                     assert forall|i: int, j: int| 0 <= i < h1 && 0 <= j < w1 implies
                         data@[#[trigger] ix(i, j, w1)] == (if i < h0 && j < w0 { o.inner@[ix(i, j, w0)] } else { dflt::<T>() })
                     by {
@@ -421,7 +423,7 @@ proof fn lemma_idx(i: int, j: int, h: int, w: int)
                     }
                 } }
 //@@ before /let pos = \(/
-        proof { if ne {
+        proof { {
             assert(self.start == o.start);
             assert(self.h() == h1 && self.w() == w1);
             assert(self.inner@.len() >= h1 * w1);
@@ -433,9 +435,9 @@ proof fn lemma_idx(i: int, j: int, h: int, w: int)
         }
         let ghost m = *self;
 //@@ before /self\.inner\[idx\] = value;/
-        proof { if ne { assert(idx == ix(p0 - s0, p1 - s1, w1)); } }
+        proof { assert(idx == ix(p0 - s0, p1 - s1, w1)); }
 //@@ after /self\.inner\[idx\] = value;/
-        proof { if ne {
+        proof { {
             assert(self.inner@ == m.inner@.update(idx as int, value));
             if lawful::<T>() {
                 assert forall|i: int, j: int| self.has(i, j) && !(i == p0 && j == p1) implies
@@ -450,14 +452,12 @@ proof fn lemma_idx(i: int, j: int, h: int, w: int)
             }
         } }
 //@@ end
-//@@ fn src/lib.rs Range::range props=C05,C08,C17 ret=r external_body by=range_window_2x2_sel,range_window_1x1,range_window_1x2,range_window_2x1,range_window_2x2
+//@@ fn src/lib.rs Range::range props=C05,C08,C17 ret=r external_body by=range_window_2x2_sel,range_window_empty,range_window_1x1,range_window_1x2,range_window_2x1,range_window_2x2
 //@@ sig
     // ASSUMED in Verus (body: chunks().take().skip().zip(chunks_mut()...) + clone_from_slice, outside vstd); checked bounded by Kani.
     requires
         self.wf(),
-        // the source must be non-empty: on an empty source a window containing (0, 0) panics in `chunks(0)`
-        // (genuine defect, findings/range_5.rs, Kani harness range_window_empty) -- the assumed contract must not cover it
-        self.nonempty(),
+        // (the source may be empty: Kani harness range_window_empty)
         // precondition of Range::new (undocumented for `range`): corners ordered component-wise ...
         start.0 <= end.0, start.1 <= end.1,
         // ... and the u32 cell count of Range::new does not overflow
